@@ -1142,7 +1142,7 @@ def run(ctx):
         deep = _dedupe(rd.records.get("HIST", []))
         if len(deep) < D["num"] // 3 or any(len(h["calls"]) < D["depth"] - 1 for h in deep):
             raise MachineryError("simulation produced %d long histories" % len(deep))
-        nhdr = 1 if ctx.quick else 3
+        nhdr = 1 if ctx.quick else 2
         plan = [(h["hk"], hidx, h["calls"], h["mode"]) for h in hs for hidx in range(nhdr)]
         plan += [(h["hk"], 0, h["calls"], h["mode"]) for h in hopt]
         plan += [(h["hk"], i % 3, h["calls"], h["mode"]) for i, h in enumerate(deep)]
